@@ -478,8 +478,8 @@ def spawner_loop_inv(numvar):
     return inv
 
 
-LOOPSPECS[("pool.TaskPool._apply_spawner", 1)] = LoopSpec(spawner_loop_inv(lambda c: c.st.loc["num"].t), ("C04",), name="spawn-each", sig="range(num)")
-LOOPSPECS[("pool.SimpleTaskPool._start_num", 1)] = LoopSpec(spawner_loop_inv(lambda c: c.st.loc["num"].t), ("C04",), name="spawn-each", sig="range(num)")
+LOOPSPECS[("pool.TaskPool._apply_spawner", 1)] = LoopSpec(spawner_loop_inv(lambda c: c.loc("num").t), ("C04",), name="spawn-each", sig="range(num)")
+LOOPSPECS[("pool.SimpleTaskPool._start_num", 1)] = LoopSpec(spawner_loop_inv(lambda c: c.loc("num").t), ("C04",), name="spawn-each", sig="range(num)")
 
 
 def spawner_unit(qual: str, kind: int, cls: str, mk_args):
